@@ -1309,3 +1309,32 @@ def combine_options_rule(ctx, rid):
                 rr.ok("%s: %s(%s) keeps every piece's labels" % (f.name, norm(c.func), ", ".join("%s=%s" % (k, norm(v)) for k, v in sorted(opts.items()))), "%s|%s" % (f.name, c.lineno))
     need(n >= 2, "anchor lost: concat calls assembling the results (%d)" % n)
     return rr
+
+
+def case_binding_rule(ctx, rid):
+    """Runner.run_cases binds tuple cases to argument names with the fn_args
+    given by the caller, falling back to the runner's declared order only
+    when none is given; the same names are handed on to the case runner."""
+    from ..util import sym_expand
+    rr = ctx.rule(rid, "Runner.run_cases: tuple cases are bound with the caller's fn_args if given, else the runner's declared order (same names handed to the case runner)", floor=4)
+    f = ctx.prog.need_func("xyzpy.gen.farming.Runner.run_cases")
+    g = build_cfg(f.node)
+    ctx.touch(f, g)
+    pcs = [c for n, c, nm in all_calls(ctx, f, g) if nm == PREP + ".parse_cases"]
+    crs = [c for n, c, nm in all_calls(ctx, f, g) if nm == "xyzpy.gen.case_runner.case_runner_to_ds"]
+    need(len(pcs) == 1 and len(crs) == 1, "anchor lost: parse_cases / case_runner_to_ds in Runner.run_cases")
+    a_parse = arg(pcs[0], 1, "fn_args")
+    a_run = arg(crs[0], None, "fn_args")
+    need(a_parse is not None and a_run is not None, "idiom changed: fn_args not passed on in Runner.run_cases")
+    for val, want, tag in ((NOTNONE, "fn_args", "given"), (NONE, "self._fn_args", "omitted")):
+        for what, e in (("parse_cases", a_parse), ("case_runner_to_ds", a_run)):
+            got = sym_expand(ctx, f, e, {"fn_args": val})
+            got = {"self.fn_args": "self._fn_args"}.get(got, got)
+            if got == want:
+                rr.ok("fn_args %s: %s receives %s" % (tag, what, want))
+            elif got in ("fn_args", "self._fn_args"):
+                rr.bad(ctx.finding(rid, f, e, "with fn_args %s, %s receives `%s` instead of `%s`: tuple cases (e.g. those reported by find_missing_cases, ordered like the dataset's dimensions) are bound to other parameters than the caller named, "
+                                   "so wrong settings are evaluated and merged" % (tag, what, got, want), construct="case-binding %s %s" % (what, tag)), "%s fn_args %s" % (what, tag))
+            else:
+                raise AnalysisError("idiom changed: fn_args reaching %s in Runner.run_cases is `%s`" % (what, got))
+    return rr
